@@ -26,19 +26,19 @@ theorem c03_status_exact (c : Ctl) (h : CInv c) :
 
 /-- **C03 (gate).** While read-only, write / flush / unmap are refused, no replica is called and
     nothing changes. -/
-theorem c03_gate (c : Ctl) (hro : c.readOnly = true) (off len : Nat) (f : List String) :
-    c.stepWrite off len f = (c, .refused) ∧ c.stepSync "Sync" f = (c, .refused) ∧
+theorem c03_gate (c : Ctl) (hro : c.readOnly = true) (off len : Nat) (f : List String) (t : List (String × Out)) :
+    c.stepWrite off len f t = (c, .refused) ∧ c.stepSync "Sync" f = (c, .refused) ∧
     c.stepSync "Unmap" f = (c, .refused) := by
   unfold stepWrite stepSync; simp [hro]
 
 /-- **C03 (never below quorum).** A write that is let through (not refused) happens in a state
     with a quorum of RW replicas. -/
-theorem c03_never_below (c : Ctl) (h : CInv c) (off len : Nat) (f : List String)
-    (hacc : (c.stepWrite off len f).2 ≠ .refused) : rwOf c.replicas ≥ c.rf / 2 + 1 := by
+theorem c03_never_below (c : Ctl) (h : CInv c) (off len : Nat) (f : List String) (t : List (String × Out))
+    (hacc : (c.stepWrite off len f t).2 ≠ .refused) : rwOf c.replicas ≥ c.rf / 2 + 1 := by
   apply (c03_status_exact c h).mp
   cases hro : c.readOnly with
   | false => rfl
-  | true => exact absurd (by rw [(c03_gate c hro off len f).1]) hacc
+  | true => exact absurd (by rw [(c03_gate c hro off len f t).1]) hacc
 
 /-- **C03 (recovers).** With a quorum the gate is open. -/
 theorem c03_recovers (c : Ctl) (h : CInv c) (hq : rwOf c.replicas ≥ c.rf / 2 + 1) : c.readOnly = false :=
@@ -233,9 +233,8 @@ theorem c04_no_rw_fails (c : Ctl) (hav : c.available = false) (off len : Nat) (t
 
 /-- **C04 (only readers are asked).** The calls a read makes go to members of the read set. -/
 theorem c04_read_calls (c : Ctl) (tried : List (String × Out)) :
-    ∀ p ∈ (tried.foldl (fun c t => match c.readers.find? (fun r => r.1 = t.1) with
-                                    | some r => c.call r.2 "ReadAt" | none => c) c).calls,
-      p ∈ c.calls ∨ ∃ r ∈ c.readers, r.2 = p.1 := by
+    ∀ p ∈ (c.readCalls tried).calls, p ∈ c.calls ∨ ∃ r ∈ c.readers, r.2 = p.1 := by
+  unfold readCalls
   induction tried generalizing c with
   | nil => intro p hp; exact Or.inl hp
   | cons t ts ih =>
@@ -416,7 +415,7 @@ theorem c13_withdrawn (c : Ctl) (h : CInv c) (a : String) (hh : c.hasReplica a =
 
 /-- **C01 (range check).** I/O that is not inside `[0, size)` is refused and touches nothing. -/
 theorem c01_range (c : Ctl) (off len : Nat) (f : List String) (t : List (String × Out)) (hout : off + len > c.size) :
-    (c.readOnly = false → c.stepWrite off len f = (c, .refused)) ∧ c.stepRead off len t = (c, .refused) := by
+    (c.readOnly = false → c.stepWrite off len f t = (c, .refused)) ∧ c.stepRead off len t = (c, .refused) := by
   unfold stepWrite stepRead
   constructor
   · intro hro; simp [hro, hout]
@@ -476,6 +475,36 @@ theorem c07_gate (c : Ctl) (a : String) (rwc woc : Option (List String)) (ckp : 
                     cases o2 with
                     | false => simp at hok
                     | true => exact ⟨r, w, k, n, rfl, rfl, rfl, rfl, hca, rfl, rfl⟩)
+
+/-- **C07 (sub-block writes during a rebuild are completed from RW replicas).** While a WO replica
+    is attached, a write that does not cover whole blocks is acknowledged only if the surrounding data
+    was actually served by a reader — i.e. (C04) by an RW replica; when that read fails the request
+    fails and no replica receives the write. -/
+theorem c07_widened_write_was_read (c : Ctl) (off len : Nat) (f : List String) (t : List (String × Out))
+    (hw : c.needsWiden off len = true) (hok : (c.stepWrite off len f t).2 = .ok) :
+    (t.any fun x => x.2 = .ok) = true := by
+  unfold stepWrite at hok
+  by_cases h1 : c.readOnly = true
+  · rw [if_pos h1] at hok; cases hok
+  · rw [if_neg h1] at hok
+    by_cases h2 : off + len > c.size
+    · rw [if_pos h2] at hok; cases hok
+    · rw [if_neg h2, if_pos hw] at hok
+      by_cases h3 : (!c.available) = true
+      · rw [if_pos h3] at hok; cases hok
+      · rw [if_neg h3] at hok
+        simp only at hok
+        split at hok
+        · split at hok
+          · assumption
+          · cases hok
+        · split at hok
+          · rename_i h; exact h.1
+          · cases hok
+
+/-- the reads made for the widening go to members of the read set only -/
+theorem c07_widen_asks_readers (c : Ctl) (t : List (String × Out)) :
+    ∀ p ∈ (c.readCalls t).calls, p ∈ c.calls ∨ ∃ r ∈ c.readers, r.2 = p.1 := c04_read_calls c t
 
 /-- **C07 (at most one rebuilding).** Part of `c18_consistent`; stated again for reachable states. -/
 theorem c07_single_wo (rf : Nat) (h : 1 ≤ rf) (ops : List CtlOp) :
